@@ -661,7 +661,7 @@ class C20(World):
                 if kind not in FOREIGN_FAULTS and cfg["fmt"] not in FOREIGN_OWN:
                     # faults that blow up counts or sizes only measure somebody else's parser (71 s and 8.6 GB requested by a .msh reader)
                     kind = rng.choice(FOREIGN_FAULTS)
-                ops.append({"op": "attempt", "fault": self._gen_fault(rng, kind, cfg["fmt"]), "route": rng.choice(cfg["routes"]), "transport": rng.choice(["bytesio", "simfile", "path"]), "rs": rng.randrange(2**31)})
+                ops.append({"op": "attempt", "fault": self._gen_fault(rng, kind, cfg["fmt"]), "route": rng.choice(cfg["routes"]), "transport": rng.choice(["bytesio", "simfile", "path"]), "odd_name": rng.random() < 0.06, "rs": rng.randrange(2**31)})
             return {"config": cfg, "ops": ops}
         geom, other = fw.random_geometry_recipe(rng, cfg["kind"]), fw.random_geometry_recipe(rng, cfg["kind"])
         for g in (geom, other):
@@ -681,7 +681,7 @@ class C20(World):
                 kind = "uri_special"
             elif cfg["fmt"] in AMPLIFIED and u > 0.9:
                 kind = "amplifier"
-            ops.append({"op": "attempt", "fault": self._gen_fault(rng, kind, cfg["fmt"]), "route": rng.choice(cfg["routes"]), "transport": rng.choice(["bytesio", "simfile", "path"]), "rs": rng.randrange(2**31)})
+            ops.append({"op": "attempt", "fault": self._gen_fault(rng, kind, cfg["fmt"]), "route": rng.choice(cfg["routes"]), "transport": rng.choice(["bytesio", "simfile", "path"]), "odd_name": rng.random() < 0.06, "rs": rng.randrange(2**31)})
         fams = [k for k, (ft_, _) in amplifiers.LINEAR.items() if ft_ == FT_OF.get(cfg["fmt"], cfg["fmt"])]
         if fams and rng.random() < 0.06:
             # the doubling experiment: n, 2n and 4n independent trivial items
@@ -833,8 +833,13 @@ class C20(World):
             transport = "path"  # side files are then fetched by the file-system resolver
         if ft in ("dict", "dict64"):
             transport = "bytesio"
+        if op.get("odd_name") and transport == "path" and len(files) == 1 and ft not in ("dict", "dict64"):
+            # the file under a name no loader is registered for (an editor's backup copy): refused - and closed again
+            files = {main + "~": files[main]}
+            main = main + "~"
+            ctx.count("fault:unregistered-extension")
         total = sum(len(v) for v in files.values())
-        changed = files[main] != st["pristine"][main] or sorted(files) != sorted(st["pristine"])
+        changed = files[main] != st["pristine"].get(st["main"]) or sorted(files) != sorted(st["pristine"])
         holder = {}
 
         def call():
@@ -959,7 +964,7 @@ class C20(World):
 
     # families and base sizes of the CPU-time experiment (n and 16 n items; measured on the unchanged tree: ratio / 16 between 1.0 and 1.5)
     CPU_FAMILIES = [("obj_alternating_materials", 6000), ("3mf_objects", 4000), ("obj_same_names", 4000), ("obj_material_groups", 600), ("stl_same_names", 1500),
-                    ("gltf_unnamed_meshes", 1500), ("dxf_lines", 3000), ("svg_paths", 1500)]
+                    ("gltf_unnamed_meshes", 1500), ("dxf_lines", 3000), ("svg_paths", 1500), ("stl_empty_solids", 5000), ("off_comments", 4000)]
 
     def fixed_programs(self, tier):
         cfg = {"kind": "mesh", "fmt": "obj", "n_attempts": 0, "routes": ["load"], "weights": {}, "stack": False, "enumerate_truncation": False}
